@@ -103,6 +103,16 @@ def run(ctx: Context) -> None:
         dcp, nsp = of.params[1], of.params[2]
         dims_st = mo.stmt(f"$ddims = utils.dimensions_from_coords({ds}, {dcp})")
         nsd_st = mo.stmt(f"$nsd = utils.dimensions_from_coords({ds}, {nsp})")
+        # the bounds variables of the depth coordinates go with them
+        bnames = mo.stmt(f"$bnames = {{utils.name_to_data_array({ds}, $c).attrs.get('bounds') for $c in {dcp}}}")
+        bdrop = None
+        if bnames is not None:
+            for alt in (f"{ds} = {ds}.drop_vars([$bn for $bn in $bnames if $bn in {ds}.variables])",
+                        f"{ds} = {ds}.drop_vars([$bn for $bn in $bnames if $bn in {ds}.variables], errors='ignore')"):
+                bdrop = bdrop or mo.stmt(alt)
+        ctx.check('R12.3', bdrop is not None and dims_st is not None and bdrop.lineno < dims_st.lineno,
+                  "the CF bounds variables of the depth coordinates are dropped before the reduction (they lie on the depth dimension but are not data on a grid)", of,
+                  bdrop or bnames or of.node, construct=f"depth bounds: {norm_text(bdrop)[:110] if bdrop is not None else 'not dropped'}")
         outer = None
         if dims_st is not None:
             for alt in ('for $dd in sorted($ddims, key=$$key):\n    ...', 'for $dd in $ddims:\n    ...', 'for $dd in sorted($ddims):\n    ...'):
@@ -200,6 +210,7 @@ from ..variants import V  # noqa: E402
 _D = 'src/emsarray/operations/depth.py'
 _B = 'src/emsarray/conventions/_base.py'
 VARIANTS = [
+    V('C12', 'depth-bounds-kept', _D, "    dataset = dataset.drop_vars([\n        name for name in depth_bounds_names if name in dataset.variables])\n", "", 'R12.3'),
     V('C12', 'example-first-variable', _D, "            data_array = dataset.data_vars[example_name].isel(", "            data_array = dataset.data_vars[variable_names[0]].isel(", 'R12.3'),
     V('C12', 'deep-to-shallow-true', _D, "        positive_down=True, deep_to_shallow=False)", "        positive_down=True, deep_to_shallow=True)", 'R12.1'),
     V('C12', 'argmin', _D, "    max_depth_indexes = depth_indexes.argmax(str(depth_dimension))", "    max_depth_indexes = depth_indexes.argmin(str(depth_dimension))", 'R12.2'),
